@@ -82,17 +82,6 @@ def gen_case(rng, writes, kinds=('plain', 'window')):
     off = rng.choice([0, 1, 16, 23]) if kind == 'window' else 0
     extra = rng.choice([0, 3, 16]) if kind == 'window' else 0
     base = pyenv.rbytes(rng, off + sz + extra)
-    c = rng.randrange(6)
-    if c == 0:
-        ctr = 0
-    elif c == 1:
-        # near the top; the margin keeps every reachable position (also past the end) below 2^128 blocks
-        ctr = (1 << 128) - 1 - (sz // 16 + 64) - rng.randrange(3)
-    elif c == 2:
-        ctr = (rng.getrandbits(64) << 64) | ((1 << 64) - 1 - rng.randrange(2))   # carry into the high half
-    else:
-        ctr = rng.getrandbits(128) >> rng.choice([0, 1, 64])
-        ctr = min(ctr, (1 << 128) - 1 - (sz // 16 + 64))
     nops = rng.randrange(1, 13)
     ops = []
     pos = 0          # estimate of the position, to hit coincidences on purpose (a seek that does not move, a relative seek BY the position)
@@ -139,6 +128,31 @@ def gen_case(rng, writes, kinds=('plain', 'window')):
             pos += k
         if rng.random() < 0.1:
             ops.append(['t'])
+    # the property's precondition: counter + blocks < 2^128 for every reachable position (also far past the end: relative seeks by the
+    # current position double it); the margin is computed from the history that was generated
+    reach = sz + 64
+    p = 0
+    for o in ops:
+        if o[0] == 's':
+            p = o[1] if o[2] == 0 else (p + o[1] if o[2] == 1 else sz + o[1])
+            p = max(p, 0)
+        elif o[0] == 'r':
+            p += max(o[1], 0) if o[1] >= 0 else sz
+        elif o[0] == 'w':
+            p += len(o[1]) // 2
+        reach = max(reach, p + 64)
+    margin = reach // 16 + 64
+    c = rng.randrange(6)
+    if c == 0:
+        ctr = 0
+    elif c == 1:
+        # near the top; the margin keeps every reachable position (also past the end) below 2^128 blocks
+        ctr = (1 << 128) - 1 - margin - rng.randrange(3)
+    elif c == 2:
+        ctr = (rng.getrandbits(64) << 64) | ((1 << 64) - 1 - rng.randrange(2))   # carry into the high half
+    else:
+        ctr = rng.getrandbits(128) >> rng.choice([0, 1, 64])
+        ctr = min(ctr, (1 << 128) - 1 - margin)
     return dict(twl=twl, kind=kind, off=off, sz=sz, base=base.hex(), key=pyenv.rbytes(rng, 16).hex(), ctr=ctr, ops=ops)
 
 
